@@ -225,9 +225,13 @@ def r3_scanners(ctx):
                         lit = bytes_literal(c[3][1])
                         who = "chunk" if has_subterm(c[3][0], lambda s: s[0] == "arg" and s[2] == "chunk") else "buf"
                         info[v]["lits"].add((who, lit))
+                is_some = ends(p) == "ret" and ret_of(p)[0] == "agg" and ret_of(p)[2] == "Some"
+                gts = [e for e in p if e[0] == "switch" and e[2][0] == "bin" and e[2][1] == "Gt" and e[2][3][0] == "c" and e[3] != 0]
+                if is_some:
+                    # the minimum over all exits: an exit without the length test has minimum 0
+                    m = max([e[2][3][2] for e in gts], default=0)
+                    info[v]["min"] = m if info[v]["min"] is None else min(info[v]["min"], m)
                 for e in p:
-                    if e[0] == "switch" and e[2][0] == "bin" and e[2][1] == "Gt" and e[2][3][0] == "c":
-                        info[v]["min"] = e[2][3][2]
                     if e[0] == "switch" and e[2][0] == "bin" and e[2][1] == "Eq" and e[2][2][0] == "pl" and e[2][3][0] == "c" and e[2][3][1] == "usize":
                         info[v]["cuts"].add(e[2][3][2])
                 if v == "DocType":
@@ -241,7 +245,7 @@ def r3_scanners(ctx):
                         bal["ret_on_zero"] = bool(z) and z[-1][3] != 0
             ctx.ob("R3", "BangType::parse:Comment", info["Comment"]["needles"] == (62,) and {("chunk", b"--"), ("buf", b"-"), ("buf", b"--")} <= info["Comment"]["lits"] and info["Comment"]["cuts"] >= {0, 1},
                    "a comment ends at '>' preceded by '--' in all three placements of the chunk cut: %s" % info["Comment"], config=cfg)
-            ctx.ob("R3", "BangType::parse:Comment:min-length", info["Comment"]["min"] == 4, "a comment needs more than 4 bytes before its '>' (`!--` + `--`), which also keeps emit_bang's buf[3..len-2] in range: %s" % info["Comment"]["min"], config=cfg)
+            ctx.ob("R3", "BangType::parse:Comment:min-length", info["Comment"]["min"] == 4, "EVERY exit that reports a finished comment must have tested buffered+index > 4 (`!--` + `--` do not overlap), which also keeps emit_bang's buf[3..len-2] in range; weakest exit tests > %s" % info["Comment"]["min"], config=cfg)
             ctx.ob("R3", "BangType::parse:CData", info["CData"]["needles"] == (62,) and {("chunk", b"]]"), ("buf", b"]"), ("buf", b"]]")} <= info["CData"]["lits"] and info["CData"]["cuts"] >= {0, 1},
                    "CDATA ends at '>' preceded by ']]' in all three placements of the chunk cut: %s" % info["CData"], config=cfg)
             ctx.ob("R3", "BangType::parse:DocType", info["DocType"]["needles"] == (60, 62) and bal["inc"] and bal["dec"] and bal["ret_on_zero"], "DOCTYPE counts '<' (+1) and '>' (-1) and ends at a '>' with balance 0: needles %s %s" % (info["DocType"]["needles"], bal), config=cfg)
@@ -350,4 +354,77 @@ def r5_whitespace(ctx):
             ctx.ob("R5", "name_len:stops", stop, "scanning stops (returns) at the first whitespace byte", config=cfg)
 
 
-RULES = [("R1", r1_dispatch), ("R2", r2_eof_errors), ("R3", r3_scanners), ("R4", r4_delimiters), ("R5", r5_whitespace)]
+def r6_accessors(ctx):
+    """Payload accessors expose exactly the name / the rest: slices with the documented bounds."""
+    for cfg, F in ctx.facts.items():
+        def ret_index(path, want_kind, want_field):
+            b = ctx.body(F, path, "R6")
+            if b is None:
+                return
+            ok = False
+            shown = None
+            for p in ctx.paths(b):
+                r = ret_of(p)
+                if r is None:
+                    continue
+                for s in sym.subterms(r):
+                    if call_is(s, "index") and s[3][1][0] == "agg":
+                        shown = sym.show(s, 3)
+                        rng = s[3][1]
+                        base_ok = has_subterm(s[3][0], lambda x: x[0] == "pl" and ends_with_fields(x, "buf"))
+                        ok = rng[2] == want_kind and is_self_field(rng[3][0], want_field) and base_ok
+            ctx.ob("R6", path.split("events::")[-1], ok, "must return buf[%s] of the event's own buffer: %s" % ("..name_len" if want_kind == "RangeTo" else "name_len..", shown), config=cfg)
+        ret_index("events::BytesStart::name", "RangeTo", "name_len")
+        ret_index("events::BytesStart::attributes_raw", "RangeFrom", "name_len")
+        for fn, html in (("attributes", False), ("html_attributes", True)):
+            b = ctx.body(F, "events::BytesStart::" + fn, "R6")
+            if b is not None:
+                ok = False
+                for p in ctx.paths(b):
+                    for c in calls(p):
+                        if name_is(c[2], "Attributes::wrap"):
+                            ok = has_subterm(c[3][0], lambda x: x[0] == "pl" and ends_with_fields(x, "buf")) and is_self_field(c[3][1], "name_len") and c[3][2] == ("c", "bool", html)
+                ctx.ob("R6", "BytesStart::" + fn, ok, "attribute iteration starts right after the name (pos = name_len) in %s mode" % ("HTML" if html else "XML"), config=cfg)
+        b = ctx.body(F, "events::BytesEnd::name", "R6")
+        if b is not None:
+            ok = any(ret_of(p) is not None and ret_of(p)[0] == "agg" and ret_of(p)[1].endswith("QName") and has_subterm(ret_of(p), lambda x: x[0] == "pl" and ends_with_fields(x, "name")) and not has_subterm(ret_of(p), lambda x: call_is(x, "index")) for p in ctx.paths(b))
+            ctx.ob("R6", "BytesEnd::name", ok, "the whole stored name", config=cfg)
+        for fn, inner in (("target", "name"), ("content", "attributes_raw")):
+            b = ctx.body(F, "events::BytesPI::" + fn, "R6")
+            if b is not None:
+                cs = [sym.short(c[2]).split("::")[-1] for p in ctx.paths(b) for c in calls(p)]
+                ctx.ob("R6", "BytesPI::" + fn, cs == [inner], "PI %s = BytesStart::%s of the wrapped content: %s" % (fn, inner, cs), config=cfg)
+        # QName parts: prefix = [..i], local = [i+1..] with i = index of the first ':'
+        idx = ctx.body(F, "name::QName::index", "R6")
+        if idx is not None:
+            ok = any(name_is(c[2], "memchr") and c01int_(c[3][0]) == 58 for p in ctx.paths(idx) for c in calls(p))
+            ctx.ob("R6", "QName::index", ok, "the prefix separator is the first ':'", config=cfg)
+        d = ctx.body(F, "name::QName::decompose", "R6")
+        if d is not None:
+            for p in ctx.paths(d):
+                r = ret_of(p)
+                if r is None or r[0] != "tuple":
+                    continue
+                found = decision_on(p, lambda t: t[0] == "discr" and call_is(t[1], "QName::index"))
+                if found == 1:
+                    loc = [s for s in sym.subterms(r[1][0]) if call_is(s, "index")]
+                    pre = [s for s in sym.subterms(r[1][1]) if call_is(s, "index")]
+                    ok = bool(loc) and bool(pre) and loc[0][3][1][2] == "RangeFrom" and loc[0][3][1][3][0][0] == "bin" and loc[0][3][1][3][0][3] == ("c", "usize", 1) and pre[0][3][1][2] == "RangeTo" and pre[0][3][1][3][0][0] == "pl"
+                    ctx.ob("R6", "QName::decompose[prefixed]", ok, "local name = [i+1..], prefix = [..i]", config=cfg)
+                else:
+                    ok = r[1][1][0] == "agg" and r[1][1][2] == "None" and not has_subterm(r[1][0], lambda x: call_is(x, "index"))
+                    ctx.ob("R6", "QName::decompose[plain]", ok, "no ':' -> the whole name is local, no prefix", config=cfg)
+
+
+def c01int_(t):
+    return c10int(t)
+
+
+def r7_sources(ctx):
+    """The events are cut out of the input by the XmlSource helpers: their contracts (C02 R2) are a
+    necessary condition of C01 for every source kind."""
+    import consume
+    consume.check(ctx, "R7")
+
+
+RULES = [("R1", r1_dispatch), ("R2", r2_eof_errors), ("R3", r3_scanners), ("R4", r4_delimiters), ("R5", r5_whitespace), ("R6", r6_accessors), ("R7", r7_sources)]
